@@ -142,7 +142,7 @@ fn waveform(out: &mut Out, r: &mut Rng, tapes: u64) {
         let mut blocks = random_tape(r, 3, true);
         if ti % 3 == 2 {
             // (the tapes that get wound back carry a block longer than the player's window, where most of the time is spent)
-            let len = *r.pick(&[129usize, 200, 300]);
+            let len = *r.pick(&[129usize, 200, 256, 300, 384]);
             let mut b = r.bytes(len);
             b[0] = 0xFF;
             blocks.push(b);
@@ -154,8 +154,24 @@ fn waveform(out: &mut Out, r: &mut Rng, tapes: u64) {
         // a third of the tapes are wound back by the listener somewhere on the way (anywhere in the first pass: inside a
         // pilot, inside a long block, in a pause) and then heard from the start to the end
         if ti % 3 == 2 {
-            let total: u64 = blocks.iter().map(|b| 8063 * 2168 + 16 * 1710 * b.len() as u64 + 3_500_000).sum();
-            let until = r.below(total.max(1));
+            // the moment: inside the pilot tone of a block, among its first 128 bytes (the player streams longer blocks
+            // through a window of that size), or anywhere in it
+            let mut start = 0u64;
+            let mut spans: Vec<(u64, u64, u64, u64)> = vec![]; // start, end of pilot+sync, end of the first window, end of data
+            for b in blocks.iter() {
+                let pilot = if b[0] < 128 { 8063u64 } else { 3223 } * 2168 + 667 + 735;
+                let bits = |bytes: &[u8]| -> u64 { bytes.iter().map(|x| 2 * (855 * x.count_zeros() as u64 + 1710 * x.count_ones() as u64)).sum() };
+                let w = bits(&b[..b.len().min(128)]);
+                let all = bits(b);
+                spans.push((start, start + pilot, start + pilot + w, start + pilot + all));
+                start += pilot + all + 3_500_000;
+            }
+            let (s0, s1, s2, s3) = *r.pick(&spans);
+            let until = match r.below(3) {
+                0 => s0 + r.below(s1 - s0),
+                1 => s1 + r.below((s2 - s1).max(1)),
+                _ => s0 + r.below(s3 - s0 + 3_000_000),
+            };
             let mut t = 0u64;
             while t < until && !d.stopped() && !d.failed {
                 let c = pol.next(r);
